@@ -51,7 +51,9 @@ def gen_case(rng: random.Random, tier: str) -> dict:
 
     # (levels=lv_<v>: the level list comes from a context variable, which may evaluate differently when the spec is reused)
     cwrap = {v: rng.choice(["C({v})", "C({v})", "C({v}, contr.sum)", "C({v}, contr.poly)", "C({v}, contr.helmert)", "C({v}, levels=lv_{v})",
-                            "C({v}, contr.sum, levels=lv_{v})"]) for v in vars_}
+                            "C({v}, contr.sum, levels=lv_{v})",
+                            # a caller's transform that returns a mapping of categorical sub-columns (each keeps its own recorded levels)
+                            "mcat({v})"]) for v in vars_}
 
     def nm(v):
         return cwrap[v].format(v=v) if wrap[v] else v
@@ -122,9 +124,15 @@ def judge(case) -> Outcome:
     df = make_frame({"cols": case["cols"], "index": None})
     f = case["formula"]
     tag = f"{f!r} scenario={scen} target={target} dtype={case['tdtype']} out={case['output']} na={case['na']} part={case.get('structured')}"
+    def mcat(values):
+        from formulaic.materializers.types import FactorValues
+
+        return FactorValues({"p": values}, kind="categorical")
+
     ctx_fit = {f"lv_{v}": list(lv) for v, lv in L.items()}
     how = case.get("lv_reuse", "same")
     ctx_reuse = {k: (v[:-1] if how == "shorter" else list(reversed(v)) if how == "reordered" else list(v)) for k, v in ctx_fit.items()}
+    ctx_fit["mcat"] = ctx_reuse["mcat"] = mcat
     with quiet():
         try:
             if case.get("structured"):  # the formula is one part of a multi-part formula whose other part uses the same factors;
